@@ -64,7 +64,9 @@ def gen_tables(rng, tier, seed):
             ops.append(['cut', link, rng.randrange(2), what, rng.randrange(0, 8), rng.randrange(8), rng.randrange(2)])
         else:
             ops.append(['close_server_then_open', link, rng.randrange(2)])
-    return {'link2': link2, 'profile': rng.choice(PROFILE_NAMES), 'ops': ops}
+    # the last thing in some histories: an open that the caller gives up (cancels, as a timeout would) while the answer is on its way
+    abandon = [rng.randrange(2), rng.randrange(2), rng.choice([0.0, 0.0, 0.001, 0.01])] if rng.random() < 0.25 else None
+    return {'link2': link2, 'profile': rng.choice(PROFILE_NAMES), 'ops': ops, 'abandon': abandon}
 
 
 class Chan:
@@ -495,6 +497,31 @@ def run_tables(case):
             _tables(cx, kind)
             if sim.violations:
                 break
+        if case.get('abandon') and not sim.violations:
+            link, side, wait = case['abandon']
+            if cx.links[link] is not None:
+                ck = 'classic' if cx.classic(link) else 'le_coc'
+                peer_node = cx.node(link, 1 - side)
+                psm = (CL_PSMS if ck == 'classic' else LE_PSMS)[0]
+                if psm in cx.servers[peer_node]:
+                    node = cx.node(link, side)
+                    mgr = world[node].device.l2cap_channel_manager
+                    handle = cx.links[link][side].handle
+                    before_tbl = sorted(mgr.channels.get(handle, {}).keys())
+                    ta = sim.loop.create_task(_open_coro(cx, link, side, ck, psm, 1))
+                    sim.loop.drive(lambda: sorted(mgr.channels.get(handle, {}).keys()) != before_tbl or ta.done(), vt_budget=1.0, step_budget=50_000)
+                    if wait:
+                        sim.loop.advance(wait)
+                    if not ta.done():
+                        ta.cancel()
+                        sim.fault('open_abandoned_in_flight')
+                        sim.loop.settle(vt_budget=5.0)
+                        sim.loop.advance(1.0)
+                        after_tbl = sorted(mgr.channels.get(handle, {}).keys())
+                        if after_tbl != before_tbl:
+                            sim.violation_once('tbl-abandoned', f'table:channels:stale:after=abandoned-open:{ck}',
+                                               f'N{node} link {link}: channels table has CIDs {after_tbl}, had {before_tbl} before the open that its caller cancelled')
+                        cx.shape.append(('abandoned', ck))
         sim.trace.shape(tuple(cx.shape))
         return result(sim, nontrivial=cx.reused > 0 or sim.probes['link_cut_hit_operation_in_flight'] > 0)
     finally:
